@@ -204,7 +204,12 @@ class MetaArray(type):
                 raise ValueError(f"No shape defined for {cls}")
             if "_order" not in data:
                 data["_order"] = "C"
-            _shape = data["_shape"]
+            # python integers: sizes, strides and field offsets derived from
+            # numpy extents would not be recognised as constants by the C
+            # generator
+            _shape = data["_shape"] = tuple(
+                d if d is None else int(d) for d in data["_shape"]
+            )
             # "C" / "F" depend on the number of dimensions only
             data["_order"] = mk_order(data["_order"], _shape)
             dshape = []  # find dynamic shapes
